@@ -352,6 +352,26 @@ impl Pool {
     }
 
     fn gen_pair(&self, rng: &mut Rng) -> ([i128; 4], &'static str) {
+        if self.k >= 40 && rng.chance(1, 16) {
+            // two numerators over one denominator that agree in their low 16 / 32 bits; the first is coprime to the
+            // denominator, the second is not (whatever is remembered about the first pair - under a key that keeps only part
+            // of the operands - must not be applied to the second)
+            let d = 2 + Self::uniform(rng, 5000);
+            let shift = *rng.pick(&[16u32, 32, 32, 32]);
+            let mut n1 = 1 + Self::uniform(rng, 1 << 20);
+            while ogcd(n1, d) != 1 {
+                n1 += 1;
+            }
+            let p = (2..=d).find(|q| d % q == 0).unwrap_or(d);
+            let t = (1..=p).find(|t| (n1 + t * (1i128 << shift)) % p == 0);
+            if let Some(t) = t {
+                let n2 = n1 + t * (1i128 << shift);
+                if n2 <= self.b {
+                    let s = Self::sign(rng, 1);
+                    return ([n1, d, s * n2, s * d], "low_bits_twins");
+                }
+            }
+        }
         let (mut q, shape): ([i128; 4], &'static str) = match rng.weighted(&[22, 22, 12, 8, 8, 10, 8, 10]) {
             0 => ([self.val(rng), self.nonzero(rng), self.val(rng), self.nonzero(rng)], "independent"),
             1 => {
